@@ -14,7 +14,9 @@ class InfoFiles:
         info_dir = os.path.join(norm_path, 'info')
         try:
             for info_file in self.fs.list_files_in_dir(info_dir):
-                if not os.path.basename(info_file).endswith('.trashinfo'):
+                basename = os.path.basename(info_file)
+                if (not basename.endswith('.trashinfo')
+                        or basename == '.trashinfo'):
                     yield ('non_trashinfo', info_file)
                 else:
                     yield ('trashinfo', info_file)
